@@ -400,6 +400,7 @@ namespace llh {
         // lenient == true: an *empty* PDU is handed to acknowledge() from a buffer of the radio in that situation.
         bool                  lenient_when_rx_full = false;
         unsigned              rx_full = 0, rx_full_on_empty = 0, rx_full_rescued = 0;
+        bool                  last_event_quiet = false;   // the peripheral only transmitted empty PDUs in the last connection event
 
         explicit central( dev_if& dev ) : d( dev ) {}
 
@@ -483,6 +484,7 @@ namespace llh {
                 return res;
             begin_callback( next_event_time() );
             ll::connection_event_events ev;
+            last_event_quiet                  = true;
             std::size_t                 i     = 0;
             bool                        first = true;
             while ( first || i < burst.size() )
@@ -523,6 +525,8 @@ namespace llh {
                 const std::uint8_t len    = t.buffer[ 1 ];
                 const bool         p_sn   = h0 & 8;
                 const bool         p_nesn = h0 & 4;
+                if ( len != 0 )
+                    last_event_quiet = false;
                 bool               taken  = false;
                 if ( p_nesn != sn )
                 {
@@ -620,7 +624,7 @@ namespace llh {
     inline rc::Gen< conn_params > gen_params( bool long_intervals )
     {
         return rc::gen::map(
-            rc::gen::tuple( long_intervals ? rc::gen::weightedElement< unsigned >( { { 1, 6 }, { 1, 24 }, { 3, 80 }, { 4, 400 }, { 4, 800 }, { 4, 1600 }, { 3, 3200 } } )
+            rc::gen::tuple( long_intervals ? rc::gen::weightedElement< unsigned >( { { 1, 6 }, { 2, 24 }, { 6, 80 }, { 10, 400 }, { 10, 800 }, { 10, 1600 }, { 8, 3200 } } )
                                                : rc::gen::weightedElement< unsigned >( { { 2, 6 }, { 1, 7 }, { 3, 24 }, { 3, 80 }, { 2, 400 } } ),
                 verif::range< unsigned >( 0, 3 ), verif::range< unsigned >( 0, 3 ), verif::range< unsigned >( 5, 16 ), verif::range< unsigned >( 0, 7 ),
                 verif::range< unsigned >( 1, 4 ), verif::range< unsigned >( 0, 2 ) ),
